@@ -49,6 +49,16 @@ inductive Instr
   | SALQi (imm : Nat) (dst : Reg)
   | ORQ (src dst : Reg)
   | JLE (l : String)
+  -- the ABI wrappers (`TEXT ·IndexByte` …): arguments come from the caller's frame, the kernel body is tail-called
+  | MOVQarg (name : String) (dst : Reg)   -- MOVQ name+off(FP), dst
+  | MOVBarg (name : String) (dst : Reg)   -- MOVB name+off(FP), dst-low-byte (upper bits of dst kept)
+  | LEAQret (dst : Reg)                   -- LEAQ ret+off(FP), dst
+  | LEAL (disp : Int) (src dst : Reg)     -- 32-bit add of a displacement, zero-extended
+  | ADDLi (imm : Int) (dst : Reg)
+  | CMPBi (a : Reg) (imm : Nat)           -- CMPB a-low-byte, $imm
+  | JLS (l : String) | JHI (l : String)
+  | CMPBpopcnt                            -- CMPB ·X86.HasPOPCNT, $1
+  | TAIL (sym : String)                   -- JMP sym(SB)
   | CMPBavx2                              -- CMPB ·X86.HasAVX2, $1
   | STUCK                                 -- an instruction outside the modelled subset
   | MOVOU (disp : Int) (base : Reg) (idx : Option Reg) (dst : XReg)
@@ -83,6 +93,9 @@ structure St where
   cf : Bool
   lt : Bool            -- signed "less" of the last compare (SF ≠ OF); only compares update it
   avx2 : Bool          -- the CPU feature flag the kernels test
+  popcnt : Bool        -- the CPU feature flag the counting wrappers test
+  args : String → Nat  -- the caller's argument frame, by name
+  tail : Option String -- the symbol a wrapper tail-called
   mem : Nat → UInt8
   loads : List (Nat × Nat)
   out : Option Int
@@ -112,6 +125,9 @@ def firstBit (v : Nat) : Nat → Nat → Option Nat
 /-- a displacement as a 64-bit two's-complement addend -/
 def dispN (d : Int) : Nat := if d < 0 then W64 - (-d).toNat else d.toNat
 
+/-- a displacement as a 32-bit two's-complement addend -/
+def disp32 (d : Int) : Nat := if d < 0 then W32 - (-d).toNat else d.toNat
+
 /-- number of set bits among bits `j, …, j+n-1` -/
 def cntBits (v : Nat) : Nat → Nat → Nat
   | _, 0 => 0
@@ -122,6 +138,10 @@ def addr (s : St) (disp : Int) (base : Reg) (idx : Option Reg) : Nat :=
 
 /-- a 64-bit value as a signed integer -/
 def sgn (v : Nat) : Int := if v < 2 ^ 63 then (v : Int) else (v : Int) - (W64 : Int)
+
+/-- 32-bit addition of a signed constant, zero-extended to 64 bits.  (The constant is the *first* summand: `Nat.add` recurses on its
+    second argument, and a kernel conversion check that falls back to unfolding must not meet a 2³²-sized literal there.) -/
+def add32 (x : Nat) (d : Int) : Nat := (disp32 d + x % W32) % W32
 
 /-- one instruction; `none` = `RET` (or stuck), `some (st, jump target)` otherwise -/
 def step (s : St) : Instr → Option (St × Option String)
@@ -159,6 +179,16 @@ def step (s : St) : Instr → Option (St × Option String)
   | .SALQi imm dst => some (setR s dst ((s.r dst <<< (imm % 64)) % W64), none)
   | .ORQ src dst => let v := s.r dst ||| s.r src; some ({ setR s dst v with zf := v == 0, cf := false }, none)
   | .JLE l => some (s, if s.lt || s.zf then some l else none)
+  | .MOVQarg n dst => some (setR s dst (s.args n % W64), none)
+  | .MOVBarg n dst => some (setR s dst (s.r dst / 256 * 256 + s.args n % 256), none)
+  | .LEAQret dst => some (setR s dst (s.args "ret" % W64), none)
+  | .LEAL d src dst => some (setR s dst (add32 (s.r src) d), none)
+  | .ADDLi imm dst => let v := add32 (s.r dst) imm; some ({ setR s dst v with zf := v == 0 }, none)
+  | .CMPBi a imm => some ({ s with zf := s.r a % 256 == imm, cf := decide (s.r a % 256 < imm) }, none)
+  | .JLS l => some (s, if s.cf || s.zf then some l else none)
+  | .JHI l => some (s, if s.cf || s.zf then none else some l)
+  | .CMPBpopcnt => some ({ s with zf := s.popcnt, cf := false }, none)
+  | .TAIL sym => some ({ s with tail := some sym }, some "$tail")
   | .CMPBavx2 => some ({ s with zf := s.avx2, cf := false }, none)
   | .STUCK => none
   | .ANDQi imm dst => let v := s.r dst &&& imm; some ({ setR s dst v with zf := v == 0, cf := false }, none)
